@@ -189,23 +189,26 @@ def row_val(r, sigma):
     return s
 
 
-def cone_member(tag, v, weights=None, margin=1e-7):
-    """True / False / None (too close to the boundary to call)"""
+def cone_member(tag, v, weights=None, margin=1e-7, scales=None):
+    """True / False / None (too close to the boundary to call).  `scales`: per entry, the size of the terms that were added
+    up to form it (an entry that is a difference of large numbers carries their rounding error)"""
     v = [float(x) for x in v]
     if any(math.isinf(x) or math.isnan(x) for x in v):
         return False
+    sc = [1.0] * len(v) if scales is None else [max(1.0, float(x)) for x in scales]
 
     def sgn(d, scale=1.0):
         if abs(d) <= margin * max(1.0, scale):
             return None
         return d > 0
     if tag == '0':
-        m = max([abs(x) for x in v] + [0.0])
-        return True if m == 0 else (None if m <= margin else False)
+        if all(x == 0 for x in v):
+            return True
+        return None if all(abs(x) <= margin * k for x, k in zip(v, sc)) else False
     if tag == '+':
         res = True
-        for x in v:
-            s = sgn(x, 1.0)
+        for x, k in zip(v, sc):
+            s = sgn(x, k)
             if s is False:
                 return False
             if s is None and x != 0:
@@ -286,10 +289,13 @@ def con_holds(c, sigma, margin=1e-7):
 def system_member(out, x, weights_by_block=None, margin=1e-7):
     """A x + b in K for an implementation output (float matrices)"""
     A = np.asarray(out['A'], dtype=float).reshape(len(out['b']), len(out['cols']))
-    s = A @ np.asarray(x, dtype=float) + np.asarray(out['b'], dtype=float) if len(out['cols']) else np.asarray(out['b'], dtype=float)
+    bvec = np.asarray(out['b'], dtype=float)
+    xv = np.asarray(x, dtype=float)
+    s = A @ xv + bvec if len(out['cols']) else bvec
+    sizes = np.abs(A) @ np.abs(xv) + np.abs(bvec) if len(out['cols']) else np.abs(bvec)
     res, i = [], 0
     for bi, (t, l) in enumerate(out['K']):
         w = (weights_by_block or {}).get(bi)
-        res.append(cone_member(t, s[i:i + l].tolist(), weights=w, margin=margin))
+        res.append(cone_member(t, s[i:i + l].tolist(), weights=w, margin=margin, scales=sizes[i:i + l].tolist()))
         i += l
     return combine(res)
